@@ -461,7 +461,9 @@ def pipeline_model_checking(ctx):
     q = ctx.quick
     for (nm, g) in [("block", lines_gen(5 if q else 6, 2, 2, ["R", "P"], ws=(2,))),
                     ("unwrap", lines_gen(6 if q else 7, 2, 2, ["Ru", "R", "P"], blank=False)),
-                    ("tabs-inline", lines_gen(5 if q else 6, 2, 2, ["Ru", "P"], unit=" \t", base=1, blank=False, inline=True, max_code=3))]:
+                    ("tabs-inline", lines_gen(5 if q else 6, 2, 2, ["Ru", "P"], unit=" \t", base=1, blank=False, inline=True, max_code=3)),
+                    # elements wholly on one line (behind / in front of code, next to another element's tag), valued flags, padded tags
+                    ("one-line-elements", lines_gen(4 if q else 5, 2, 2, ["Ru", "S", "P"], blank=False, tail=True, flag_val="='1'", pad=" ", max_code=2))]:
         consts = dict(base_consts(dict(DEFAULT_CFG), [], "mc"))
         consts.update(g["consts"])
         consts["DMax"] = consts.pop("D")
